@@ -1157,6 +1157,13 @@ class AclMachine(Machine):
             for k1 in cls.PREFIX_KINDS:
                 for k2 in cls.PREFIX_KINDS:
                     plan.append((a, [k1, k2]))
+        if tier == "thorough":
+            core = ["set_platform", "set_port_nr", "resequence", "group", "ungroup", "sort",
+                    "permute_setter", "insert", "copy", "shadow_triple", "ungroup_ports", "reparse"]
+            for k1 in core:
+                for k2 in core:
+                    for k3 in core:
+                        plan.append((1, [k1, k2, k3]))
         return plan
 
     def _memo_schedule(self, st):
